@@ -52,6 +52,10 @@ pub struct Case {
     /// per-joint weights of the transition cost (None: the library's DEFAULT_TRANSITION_COSTS)
     #[serde(default)]
     pub coefficients: Option<[f64; 6]>,
+    /// further executions with OTHER random outcomes ("repeated runs"): judged path by path, not
+    /// compared with the others for success (different samples may legitimately decide otherwise)
+    #[serde(default)]
+    pub cfgs_other_rng: Vec<SimCfg>,
 }
 
 fn pose_of(p: &[f64; 7]) -> Pose {
@@ -414,6 +418,27 @@ fn judge_with(case: &Case, robot: &Arc<KinematicsWithShape>, observe: &mut dyn F
             },
         }
     }
+    for (k, cfg) in case.cfgs_other_rng.iter().enumerate() {
+        let ci = case.cfgs.len() + k;
+        let out = execute(robot, case, cfg);
+        observe(ci, &out);
+        match &out.result {
+            Err(abort) => {
+                let (clause, msg) = match abort {
+                    Abort::Panic(m) => ("h:panic", m.clone()),
+                    Abort::Deadlock(m) => ("h:deadlock", m.clone()),
+                    Abort::StepLimit(m) => ("h:step-limit", m.clone()),
+                };
+                let site = msg.rsplit(" @ ").next().unwrap_or("").rsplit('/').next().unwrap_or("").to_string();
+                fails.push(Fail { clause: clause.into(), signature: format!("C12/{clause}/{site}"), detail: msg, cfgs: vec![ci] });
+            }
+            Ok(obs) => {
+                if let Ok(path) = &obs.result {
+                    judge_path(case, &oc, path, &obs.trace, ci, &mut fails);
+                }
+            }
+        }
+    }
     // (g) success must not depend on the schedule (random outcomes are keyed by strategy, so
     // they are the same in every schedule)
     if oks.len() >= 2 {
@@ -574,7 +599,7 @@ pub fn gen_case(seed: u64, shard: u64, run: u64, t: &Tier) -> Option<(Case, &'st
         q_land[4] = 0.3 + w.range_f64(0.0, 0.8);
     }
     clampq(&mut q_land);
-    let n_steps = w.below(5);
+    let n_steps = if w.chance(0.1) { w.range_usize(5, 9) } else { w.below(5) };
     let big = w.chance(0.25);
     let d: [f64; 6] = std::array::from_fn(|_| {
         let m = if big { w.range_f64(0.1, 0.5) } else { w.range_f64(0.01, 0.1) };
@@ -673,6 +698,13 @@ pub fn gen_case(seed: u64, shard: u64, run: u64, t: &Tier) -> Option<(Case, &'st
         cfg.inner_full = knobs.chance(0.15);
         cfgs.push(cfg);
     }
+    let other = {
+        let seed2 = simctx::mix(&[rng_seed, 0x0CE]);
+        let mut cfg = SimCfg::swarm(&mut knobs, simctx::mix(&[seed, shard, run, 99, simctx::name_hash("c12.sched")]), seed2, 4_000_000);
+        cfg.rng = sim::RngSpec::Stream { seed: seed2, adversarial, abs: abs.clone(), period: 6 };
+        cfg.inner_full = false;
+        vec![cfg]
+    };
     let case = Case {
         cell,
         from,
@@ -688,6 +720,7 @@ pub fn gen_case(seed: u64, shard: u64, run: u64, t: &Tier) -> Option<(Case, &'st
         rrt_max_try: *w.pick(&[1, 5, 30, 100, 300]),
         cfgs,
         coefficients: if w.chance(0.5) { Some(std::array::from_fn(|_| w.range_f64(0.2, 6.0))) } else { None },
+        cfgs_other_rng: other,
     };
     Some((case, layout))
 }
@@ -710,7 +743,7 @@ pub fn run(tier_name: &str, seed: u64) -> i32 {
             let mut guided: Vec<Case> = Vec::new();
             let fails = judge_with(&case, &robot, &mut |ci, out| {
                 tally.evaluations += 1;
-                if ci <= 1 && guided.len() < 2 {
+                if ci <= 1 && ci < case.cfgs.len() && guided.len() < 2 {
                     guided.extend(guided_cases(&case, ci, out));
                 }
                 let c = &out.counters;
@@ -722,8 +755,12 @@ pub fn run(tier_name: &str, seed: u64) -> i32 {
                 tally.bump("par_calls_multiworker", c.n_par_multiworker);
                 tally.bump("find_any_races", c.n_find_any_races);
                 tally.bump("find_any_races_with_several_hits", c.n_find_any_multi);
-                tally.bump(&format!("pool_size_{:02}", case.cfgs[ci].pool), 1);
-                if let SchedSpec::Seeded { flavour: sim::Flavour::Starve(_), .. } = &case.cfgs[ci].sched {
+                let this_cfg = if ci < case.cfgs.len() { &case.cfgs[ci] } else { &case.cfgs_other_rng[ci - case.cfgs.len()] };
+                tally.bump(&format!("pool_size_{:02}", this_cfg.pool), 1);
+                if ci >= case.cfgs.len() {
+                    tally.bump("repeated_runs_with_other_random_outcomes", 1);
+                }
+                if let SchedSpec::Seeded { flavour: sim::Flavour::Starve(_), .. } = &this_cfg.sched {
                     tally.bump("fault_starved_strategy_or_worker", 1);
                 }
                 if c.branching > 0 {
@@ -750,7 +787,7 @@ pub fn run(tier_name: &str, seed: u64) -> i32 {
                                     "layout": layout, "from": case.from, "land": case.land, "n_steps": case.steps.len(),
                                     "check_step_m": case.check_step_m, "max_transition_cost": case.max_transition_cost,
                                     "recursion_depth": case.recursion_depth, "include_linear_interpolation": case.include_lin,
-                                    "pool": case.cfgs[ci].pool, "sched": format!("{:?}", case.cfgs[ci].sched),
+                                    "pool": this_cfg.pool, "sched": format!("{:?}", this_cfg.sched),
                                     "waypoints": p.len(), "flags": p.iter().map(|w| w.1).collect::<Vec<_>>(),
                                     "seam_events": {"ik": o.trace.iks, "collision_checks": o.trace.collisions, "rrt_samples": o.trace.samples},
                                     "schedule_prefix": out.schedule.iter().take(24).collect::<Vec<_>>(),
@@ -805,7 +842,13 @@ pub fn run(tier_name: &str, seed: u64) -> i32 {
                 }
                 tally.bump("raw_failures", 1);
                 let mut small = case.clone();
-                small.cfgs = f.cfgs.iter().map(|&i| case.cfgs[i].clone()).collect();
+                if f.cfgs.iter().all(|&i| i < case.cfgs.len()) {
+                    small.cfgs = f.cfgs.iter().map(|&i| case.cfgs[i].clone()).collect();
+                    small.cfgs_other_rng.clear();
+                } else {
+                    small.cfgs = vec![case.cfgs_other_rng[f.cfgs[0] - case.cfgs.len()].clone()];
+                    small.cfgs_other_rng.clear();
+                }
                 let has = |c: &Case| judge(c).iter().any(|g| g.clause == f.clause && g.signature == f.signature);
                 let start = if has(&small) { small } else { case.clone() };
                 let min = minimise_case(&start, &f.clause, &f.signature);
